@@ -187,7 +187,21 @@ impl Property for C14 {
             };
             let mut eff = init_size;
             for s in &a.steps {
-                let prog = concretize(&s.prog, ConcCfg { dict: a.dict as u64, max_out: 3000, max_ops: 400 });
+                let mut prog = concretize(&s.prog, ConcCfg { dict: a.dict as u64, max_out: 3000, max_ops: 400 });
+                // when this step does not re-specify the size and a size is in effect,
+                // mostly shape the stream to that size (so that a stale size shows)
+                if matches!(s.reset, 0 | 1 | 5) && s.trunc % 4 != 3 {
+                    if let Some(want) = eff {
+                        if want <= 3000 {
+                            prog = concretize(&s.prog, ConcCfg { dict: a.dict as u64, max_out: want as usize, max_ops: 400 });
+                            let mut have: u64 = prog.iter().map(|o| op_out_len(o) as u64).sum();
+                            while have < want {
+                                prog.push(crate::refmodel::program::Op::Lit((have as u8).wrapping_mul(29)));
+                                have += 1;
+                            }
+                        }
+                    }
+                }
                 let l: u64 = prog.iter().map(|o| op_out_len(o) as u64).sum();
                 match s.reset {
                     0 => {}
